@@ -116,6 +116,8 @@ type area struct {
 	makes   map[string]string              // make(T) -> term
 	wmaps   map[string]string              // "<receiver type>.<field>": g.f[k] = v -> (coq k v w)
 	optOf   map[string]string              // nil-able variant of a location type: "*Field|nil" -> "*Field" (values are wrapped in Some)
+	eqs     map[string]string              // further types compared with == : Go type -> boolean equality
+	shadow  bool                           // `:=` in a nested scope may shadow a name that is never assigned with `=`
 }
 
 type recField struct {
@@ -973,6 +975,16 @@ func (t *translator) primOf(c *ast.CallExpr, ev *env) (prim, string) {
 	if pk := t.pathKey(c.Fun, ev); pk != "" {
 		key = pk
 	}
+	if key == "" {
+		// x.y().M(...): a method of the (Go) type of the receiver expression
+		if f, isSel := c.Fun.(*ast.SelectorExpr); isSel {
+			if _, isId := f.X.(*ast.Ident); !isId {
+				if rt := t.typeOfSafe(f.X, ev); rt != "" {
+					key = rt + "." + f.Sel.Name
+				}
+			}
+		}
+	}
 	p, ok := t.a.prims[key]
 	if !ok {
 		if ix, isIx := c.Fun.(*ast.IndexExpr); isIx && key == "" {
@@ -1326,6 +1338,8 @@ func (t *translator) binary(x *ast.BinaryExpr, ev *env, sub func(ast.Expr, strin
 			s = "(Bool.eqb " + l + " " + r + ")"
 		case lt == "string":
 			s = "(String.eqb " + l + " " + r + ")"
+		case t.a.eqs[lt] != "":
+			s = "(" + t.a.eqs[lt] + " " + l + " " + r + ")"
 		default:
 			unsup(x, "comparison of values of type %s", lt)
 		}
@@ -2036,7 +2050,12 @@ func (t *translator) assign(x *ast.AssignStmt, ev *env, cont func(*env) string) 
 		lhs[i] = checkName(id)
 		old, exists := ev.index[id.Name]
 		if define && exists {
-			// a, b := ... in the scope where b was declared assigns b; in a nested scope it would shadow it
+			// a, b := ... in the scope where b was declared assigns b; in a nested scope it shadows it, which
+			// the lexical scoping of the generated lets renders exactly as long as the name is never the target
+			// of a plain assignment (the join points are computed from names)
+			if old.depth != ev.depth && old.kind != 2 && !t.reassigned[id.Name] && t.a.shadow {
+				continue
+			}
 			if old.depth != ev.depth || old.kind != 1 || len(x.Lhs) < 2 {
 				unsup(id, "variable %s shadowed by :=", id.Name)
 			}
@@ -2441,7 +2460,7 @@ func (t *translator) rangeStmt(x *ast.RangeStmt, rest []ast.Stmt, ev *env, k fun
 	}
 	var locals []*variable
 	for _, v := range ev.vars {
-		if v.kind == 1 && !isCarried[v.name] && use[v.name] {
+		if v.kind == 1 && !isCarried[v.name] && use[v.name] && ev.index[v.name] == v {
 			locals = append(locals, v)
 		}
 	}
@@ -2640,7 +2659,7 @@ func (t *translator) fuelLoop(l *fuelLoop, carried []*variable, rest []ast.Stmt,
 		}
 	}
 	for _, v := range ev.vars {
-		if v.kind == 1 && !isCarried[v.name] && use[v.name] {
+		if v.kind == 1 && !isCarried[v.name] && use[v.name] && ev.index[v.name] == v {
 			fixed = append(fixed, v)
 		}
 	}
